@@ -25,7 +25,7 @@ extern std::atomic<long> g_time_value;
 
 std::string Action::str() const {
     static const char* n[] = {"run", "publish", "subscribe", "unsubscribe", "cancel", "disconnect", "destroy", "signal",
-                              "broker_publish", "net_kill", "spurious_ack", "hostile_bytes", "set_silent", "custom",
+                              "broker_publish", "net_kill", "spurious_ack", "hostile_bytes", "set_silent", "custom", "reauth",
                               "s_open", "s_read", "s_write", "s_shutdown", "s_cancel", "s_close", "s_trigger"};
     std::ostringstream o;
     if (chained) o << "+chained ";
@@ -282,6 +282,11 @@ struct App : AppSink {
                 if (auto c = b.current()) b.send_raw(c, a.bytes, BKind::hostile, "hostile");
                 break;
             case Action::set_silent: b.cfg.silent_after_connack = a.qos != 0; break;
+            case Action::reauth:
+                if (!cl->alive()) break;
+                w.log(Ev::note, -1, -1, 0, "script: re_authenticate()");
+                ++depth; cl->re_authenticate(); --depth;
+                break;
             case Action::custom: if (a.fn) a.fn(); break;
         }
         return op;
